@@ -5,7 +5,7 @@
    nets_okb_spec : the boolean checker nets_okb is sound for nets_ok
    nets_complete : under nets_ok, the reader fails only on an IndexError of net_bit *)
 From Coq Require Import List NArith Bool Arith Lia Permutation.
-From SV Require Import Base.Base Fmt.EdifName Fmt.EdifCable Fmt.EdifBus Fmt.EdifNets Fmt.EdifNetsSpec Proofs.EdifCableProofs Proofs.EdifNetsProofs Proofs.EdifFileNets.
+From SV Require Import Base.Base Fmt.EdifName Fmt.EdifCable Fmt.EdifBus Fmt.EdifNets Fmt.EdifNetsSpec Proofs.EdifNameProofs Proofs.EdifCableProofs Proofs.EdifNetsProofs Proofs.EdifFileNets.
 Import ListNotations.
 
 (* ------------------------------------------------------------------------------------------ *)
@@ -376,6 +376,13 @@ Theorem nets_complete : forall (P : Type) (nets : list (net P)),
   exists s, read_nets [] nets = Some s.
 Proof. intros P nets. apply nets_complete_gen. Qed.
 
+(* since the repair of K9 no net name makes separate_name_and_index raise: the reader never fails on
+   nets that satisfy nets_ok *)
+Theorem nets_complete_all : forall (P : Type) (nets : list (net P)),
+  nets_ok nets -> exists s, read_nets [] nets = Some s.
+Proof. intros P nets H. apply nets_complete; [exact H|]. intros nt _. apply net_bit_total. Qed.
+
 Print Assumptions nets_sound.
 Print Assumptions nets_okb_spec.
 Print Assumptions nets_complete.
+Print Assumptions nets_complete_all.
